@@ -5,8 +5,10 @@ import (
 
 	schema "github.com/jsightapi/jsight-schema-core"
 	"github.com/jsightapi/jsight-schema-core/bytes"
+	"github.com/jsightapi/jsight-schema-core/errs"
 	"github.com/jsightapi/jsight-schema-core/fs"
 	"github.com/jsightapi/jsight-schema-core/internal/sync"
+	"github.com/jsightapi/jsight-schema-core/kit"
 	"github.com/jsightapi/jsight-schema-core/lexeme"
 )
 
@@ -116,14 +118,20 @@ func (e *Enum) doCompile() (err error) {
 
 	collectLiteral := false
 	inAnnotation := false
+	arrayFound := false
 	for {
 		lex, err := scan.Next()
 		if stdErrors.Is(err, errEOS) {
+			if !arrayFound {
+				// Empty or blank text: there is no list at all.
+				return kit.NewJSchemaError(e.file, errs.ErrEnumArrayExpected.F())
+			}
 			break
 		}
 		if err != nil {
 			return err
 		}
+		arrayFound = true
 
 		// Collect enum values.
 		switch lex.Type() {
